@@ -126,21 +126,24 @@ func plainProbe(addr string, payload []byte) string {
 	}
 	want := append([]byte(echoMark), payload...)
 	got := make([]byte, len(want))
-	n, _ := io.ReadFull(c, got)
+	n, rerr := io.ReadFull(c, got)
 	if n == len(want) && bytes.Equal(got, want) {
 		return "served"
 	}
 	if n >= len(echoMark) && string(got[:len(echoMark)]) == echoMark {
 		return "served-corrupt"
 	}
+	if ne, ok := rerr.(net.Error); ok && ne.Timeout() {
+		return "timeout" // neither answered nor closed in time: no verdict (machine stalled, or the connection hangs)
+	}
 	return "refused"
 }
 
 // tlsProbe does a TLS handshake with the reference client and one echoed request; returns the presented certificate.
-func tlsProbe(addr, sni string, protos []string, v12 bool) (peer []byte, served bool) {
+func tlsProbe(addr, sni string, protos []string, v12 bool) (peer []byte, served, timedOut bool) {
 	c, err := net.DialTimeout("tcp", addr, updWait)
 	if err != nil {
-		return nil, false
+		return nil, false, false
 	}
 	defer c.Close()
 	c.SetDeadline(time.Now().Add(updWait))
@@ -155,19 +158,24 @@ func tlsProbe(addr, sni string, protos []string, v12 bool) (peer []byte, served 
 		ccfg.MaxVersion = gotls.VersionTLS12
 	}
 	tc := gotls.Client(c, ccfg)
+	isTimeout := func(err error) bool {
+		ne, ok := err.(net.Error)
+		return ok && ne.Timeout()
+	}
 	if err := tc.Handshake(); err != nil {
-		return nil, false
+		return nil, false, isTimeout(err)
 	}
 	msg := []byte("ping over tls")
 	if _, err := tc.Write(msg); err != nil {
-		return peer, false
+		return peer, false, isTimeout(err)
 	}
 	want := append([]byte(echoMark), msg...)
 	got := make([]byte, len(want))
-	if _, err := io.ReadFull(tc, got); err == nil && bytes.Equal(got, want) {
+	_, err = io.ReadFull(tc, got)
+	if err == nil && bytes.Equal(got, want) {
 		served = true
 	}
-	return peer, served
+	return peer, served, err != nil && isTimeout(err)
 }
 
 var updFirsts = []int{'G', 'P', 'G', 0x00, 0x15, 0x17, 0x80, 0xff, 0x16, 0x16}
@@ -273,9 +281,29 @@ func runUpdate(c *hx.Ctx, g *gen, fixed []*updOp, fixedFirst int) {
 	addr := ln.Addr().String()
 	plain, certTok, stored := "refused", "err", "absent"
 	if exists {
-		plain = plainProbe(addr, payload)
+		// a probe that ran into its deadline (no answer, no close) gives no verdict: it is repeated, then the case is
+		// dropped and counted
+		timedOut := false
+		for try := 0; try < 3; try++ {
+			plain = plainProbe(addr, payload)
+			if plain != "timeout" {
+				break
+			}
+			c.Count("upd.probe-timeout.plain")
+		}
 		v12 := g.r.Bool()
-		peer, served := tlsProbe(addr, sni, protos, v12)
+		var peer []byte
+		var served bool
+		for try := 0; try < 3; try++ {
+			peer, served, timedOut = tlsProbe(addr, sni, protos, v12)
+			if !timedOut {
+				break
+			}
+			c.Count("upd.probe-timeout.tls")
+		}
+		if timedOut {
+			plain = "timeout"
+		}
 		if peer != nil {
 			certTok = "unknown"
 			for k, o := range ops {
@@ -300,6 +328,10 @@ func runUpdate(c *hx.Ctx, g *gen, fixed []*updOp, fixedFirst int) {
 		}
 	} else {
 		ln.Close()
+	}
+	if exists && plain == "timeout" {
+		c.Count("upd.dropped-no-verdict")
+		return
 	}
 	cls := fmt.Sprintf("n%d", len(ops))
 	if fixed != nil {
